@@ -40,6 +40,17 @@ def padded (x : List Bool) (pad : Int) : List Bool :=
 def epochsPad (x : List Bool) (pad : Int) : Except Err (List (Nat × Nat)) × List Bool :=
   (epochs (padded x pad), padded x pad)
 
+/-- the same with the repair proposed in notes/EXT18_fix_1.diff: `x[max(s-pad, 0):s] = 1`. -/
+def padSlicesFixed (x : List Bool) (pad : Int) : List (Nat × Nat) :=
+  (tsRising x).map (fun (s : Nat) => pySlice x.length (max ((s : Int) - pad) 0) (s : Int)) ++
+  (tsFalling x).map (fun (e : Nat) => pySlice x.length (e : Int) ((e : Int) + pad))
+
+def paddedFixed (x : List Bool) (pad : Int) : List Bool :=
+  if pad = 0 then x else x.mapIdx (fun i b => b || inSlices (padSlicesFixed x pad) i)
+
+def epochsPadFixed (x : List Bool) (pad : Int) : Except Err (List (Nat × Nat)) × List Bool :=
+  (epochs (paddedFixed x pad), paddedFixed x pad)
+
 /-- SPEC: dilation by `pad` samples on both sides: sample `i` is high iff some high sample `j` of `x`
 lies within distance `pad`. -/
 def dilate (x : List Bool) (pad : Nat) : List Bool :=
